@@ -3,6 +3,7 @@
 From Coq Require Import ZArith List Bool Arith Permutation.
 From HV Require Import Ord ListX Sprout SproutFacts Select SelectFacts FilterFacts.
 From HV Require Import Tree DriverPrim SproutPrim GenEquivStops GenLevelLimit GenDemeLimit FilterDict GenEquivLevelLimit GenEquivDemeLimit Driver GenGenerators GenEquivGenerators GenFar GenEquivFar GenMechanism GenEquivMechanism Far.
+From HV Require GenOrder GenEquivOrder F64 WMonad.
 Import ListNotations.
 
 (* BestPerDeme: exactly the (first) best of the deme's current population *)
@@ -113,3 +114,14 @@ Theorem C10_translated_get_seeds_chain (F : Type) (generator : D cmap) (apply_fi
           (keep_nonempty (fold_left (fun cm f => app f (ms s) cm) tchain (fold_left (fun cm f => app f (ms s) cm) dchain cm0))).
 Proof. exact (get_seeds_ok F generator apply_filter app). Qed.
 Print Assumptions C10_translated_get_seeds_chain.
+
+(* ---------------------------------------------------------------- Individual's ordering, TRANSLATED from the current pyhms/core/individual.py
+   (Gen/GenOrder.v: @total_ordering over __lt__ = problem.worse_than(fitnesses), __eq__ = problem.equivalent(fitnesses)): the `>` / sorted(reverse=True) the filters rank candidates by is 'strictly better in the problem's direction' *)
+Theorem C10_translated_individual_gt mx (a b : WMonad.F) : F64.fis_nan a = false -> F64.fis_nan b = false ->
+  GenOrder.gen_ind_gt mx a b = if mx then F64.flt b a else F64.fgt b a.
+Proof. exact (GenEquivOrder.ind_gt_is_strictly_better mx a b). Qed.
+Print Assumptions C10_translated_individual_gt.
+Theorem C10_translated_individual_gt_asymmetric mx (a b : WMonad.F) : F64.fis_nan a = false -> F64.fis_nan b = false ->
+  GenOrder.gen_ind_gt mx a b = true -> GenOrder.gen_ind_gt mx b a = false.
+Proof. exact (GenEquivOrder.ind_gt_asymmetric mx a b). Qed.
+Print Assumptions C10_translated_individual_gt_asymmetric.
